@@ -56,8 +56,20 @@ func genC11(seed uint64, tier string) *Scenario {
 		acct := uint64(r.Intn(2))
 		v := uint64(r.Intn(len(catalogue)))
 		switch x := r.Intn(20); {
-		case x < 8:
+		case x < 7:
 			sc.Ops = append(sc.Ops, Op{K: "reg", N: []uint64{acct, v}})
+		case x == 7:
+			// re-registration of key v under the name of a sibling: must be idempotent on the key and
+			// must not get in the way of the sibling's own (earlier or later) registration
+			var sibs []uint64
+			for w := range catalogue {
+				if w != int(v) && catalogue[w].parent == catalogue[v].parent {
+					sibs = append(sibs, uint64(w))
+				}
+			}
+			if len(sibs) > 0 {
+				sc.Ops = append(sc.Ops, Op{K: "alias", N: []uint64{acct, v, pick(r, sibs)}})
+			}
 		case x < 14:
 			sc.Ops = append(sc.Ops, Op{K: "chg", N: []uint64{acct, v, uint64(r.Intn(3))}})
 		case x == 14:
@@ -137,6 +149,22 @@ func c11Run(sc *Scenario, st *Stats) []Violation {
 			tr.ExitCall(0, nil, nil)
 			if len(stack) > 0 {
 				stack = stack[:len(stack)-1]
+			}
+		case "alias":
+			a, v, w := op.N[0], int(op.N[1]), int(op.N[2])
+			cv := catalogue[v]
+			if !get(a, uint64(v)).registered {
+				break // only an existing key can be re-registered
+			}
+			var parent *uint256.Int
+			var ptid common.Hash
+			if cv.parent >= 0 {
+				parent = uint256.NewInt(catalogue[cv.parent].slot)
+				ptid = common.BytesToHash([]byte(catalogue[cv.parent].typ))
+			}
+			st.Probes["re-registrations-under-another-name"]++
+			if err := tr.SaveStateKey(addr(c11Accounts[a]), parent, uint256.NewInt(cv.slot), uint256.NewInt(cv.offset), common.BytesToHash([]byte(cv.typ)), ptid, []byte(catalogue[w].name)); err != nil {
+				add(step, "C11.register", "reregistration-refused", "re-registration of existing key %s was refused: %v", cv.name, err)
 			}
 		case "reg":
 			a, v := op.N[0], int(op.N[1])
@@ -282,6 +310,17 @@ func c11Run(sc *Scenario, st *Stats) []Violation {
 		}
 	}
 	st.Steps += len(sc.Ops)
+	st.Probes["registrations-accepted"] += regs
+	for _, op := range sc.Ops {
+		switch op.K {
+		case "badoff":
+			st.Probes["out-of-range-offset-ops"]++
+		case "ghost":
+			st.Probes["changes-for-unknown-keys"]++
+		case "enter":
+			st.Probes["calls-entered"]++
+		}
+	}
 	st.Shape(hsh, regs >= 2)
 	return vs
 }
